@@ -911,11 +911,23 @@ func c11Plumbing(p *Prog, r *Report, rule string) {
 	// (4) same context key type on both ends
 	st, gt := p.Func("internal/model.StoreTxId"), p.Func("internal/model.GetTxId")
 	if st != nil && gt != nil {
+		// the type of the key expression handed to context.WithValue / ctx.Value (a literal of the key type, or a
+		// package-level variable holding one)
 		keyType := func(fi *FuncInfo) string {
 			res := ""
 			ast.Inspect(fi.Decl.Body, func(x ast.Node) bool {
-				if cl, ok := x.(*ast.CompositeLit); ok && res == "" {
-					if tv, ok := fi.Pkg.TypesInfo.Types[cl]; ok {
+				c, ok := x.(*ast.CallExpr)
+				if !ok || res != "" {
+					return true
+				}
+				var keyArg ast.Expr
+				if isFunc(fi.Pkg.TypesInfo, c, "context", "WithValue") && len(c.Args) == 3 {
+					keyArg = c.Args[1]
+				} else if sel, ok := c.Fun.(*ast.SelectorExpr); ok && sel.Sel.Name == "Value" && len(c.Args) == 1 {
+					keyArg = c.Args[0]
+				}
+				if keyArg != nil {
+					if tv, ok := fi.Pkg.TypesInfo.Types[keyArg]; ok {
 						res = tv.Type.String()
 					}
 				}
